@@ -72,6 +72,10 @@ def designs(draw, max_stmts=6):
             s.update(a=a, b=b)
         if kind != "conn":
             free = [c for c in ["u1", "u2", "u3", "inst_a", "inst_b", "g$1", "r_0", "r_1"] if c not in cnames]
+            if free and draw(st.integers(0, 2)) == 0:
+                # an instance may be called like a net - also like the net a later .names/.latch
+                # drives (whose conventional name it then is, unless that one has a .cname too)
+                free = free + [tok(t) for t in tokens if tok(t) not in cnames and "unconn" not in tok(t)]
             need = kind in ("subckt", "gate") or draw(st.booleans())
             if need and free:
                 cn = draw(st.sampled_from(free))
@@ -115,13 +119,14 @@ def in_domain(d):
         seen = set()
         conv = []
         for s in d["stmts"]:
-            if s["k"] == "names":
+            if "cname" in s:
+                conv.append(s["cname"])
+            elif s["k"] == "names":
                 conv.append(tok(s["out"]))
             elif s["k"] == "latch":
                 conv.append(tok(s["output"]))
-        cn = [s["cname"] for s in d["stmts"] if "cname" in s]
-        # names given by convention (driven net) must not collide with each other or with a cname
-        if len(set(conv)) != len(conv) or set(conv) & set(cn):
+        # final instance names (.cname, else by convention the driven net) must be distinct
+        if len(set(conv)) != len(conv):
             return False
         for s in d["stmts"]:
             if s["k"] in ("subckt", "gate"):
